@@ -177,9 +177,12 @@ pub struct ExecOpts {
     /// after the run, count the key comparisons of a lookup of every stored key and of a few absent
     /// ones in every crowded bin (C06)
     pub cmp_bound: bool,
+    /// after the run, insert fresh keys from the main thread: the table must not grow before the
+    /// entry count reaches three quarters of its length (C14)
+    pub post_capacity: bool,
 }
 impl ExecOpts {
-    pub const DEFAULT: ExecOpts = ExecOpts { collect_events: false, hold_refs: true, retire_reachability: false, quiescent_check: true, ledger_check: false, hb: false, post_growth: false, quarantine: false, cmp_bound: false };
+    pub const DEFAULT: ExecOpts = ExecOpts { collect_events: false, hold_refs: true, retire_reachability: false, quiescent_check: true, ledger_check: false, hb: false, post_growth: false, quarantine: false, cmp_bound: false, post_capacity: false };
 }
 impl Default for ExecOpts {
     fn default() -> Self {
@@ -608,10 +611,33 @@ fn run_thread(wk: &Wk<'_>, map: &FMap, cfg: &CCfg, ops: &[COp], hold: bool, log:
                             yields.push((k.tag, o, 0, wk.now()));
                         }
                     }
-                    _ => {
+                    2 => {
                         for v in map.values(gg) {
                             let id = hv!(v);
                             yields.push((u32::MAX, 0, id, wk.now()));
+                        }
+                    }
+                    // serialisation (serde): a traversal too.  3 / 4: JSON text of the map / of a
+                    // pinned reference, re-read keeping duplicate keys; 5 / 6: the same through a
+                    // format that trusts the announced length
+                    k => {
+                        let k = *k;
+                        let pinned = k % 2 == 0;
+                        let entries: Result<Vec<(u64, u64)>, String> = if k <= 4 {
+                            let js = if pinned { serde_json::to_string(&map.pin()) } else { serde_json::to_string(map) };
+                            js.map_err(|e| e.to_string()).and_then(|j| serde_json::from_str::<crate::strictser::JsonPairs>(&j).map(|p| p.0).map_err(|e| format!("{} ({:?})", e, j)))
+                        } else {
+                            let d = if pinned { crate::strictser::to_doc(&map.pin()) } else { crate::strictser::to_doc(map) };
+                            d.and_then(|d| d.check().map(|_| d.entries))
+                        };
+                        match entries {
+                            Ok(es) => {
+                                let at = wk.now();
+                                for (t, _) in es {
+                                    yields.push((t as u32, 0, 0, at));
+                                }
+                            }
+                            Err(e) => log.recs.faults.push(format!("C19: serialising the map{} while other threads update it: {}", if pinned { " (pinned reference)" } else { "" }, e)),
                         }
                     }
                 }
@@ -815,6 +841,37 @@ pub fn exec(pool: &Pool, prog: &Prog, spec: SchedSpec<'_>, opts: &ExecOpts, map_
                 oracle_fail = Some(("C05", e));
             } else if let Err(e) = inspect::check_quiescent(&d, prog.cfg.hmode) {
                 oracle_fail = Some(("C05", e));
+            }
+        }
+        if opts.post_capacity && oracle_fail.is_none() && after.table_len > 0 && after.table_len <= 4096 {
+            let r = std::panic::catch_unwind(std::panic::AssertUnwindSafe(|| -> Result<(), String> {
+                let g = m.guard();
+                let n0 = after.table_len;
+                let thr = n0 - (n0 >> 2);
+                let mut count = fin.len();
+                let mut i = 0u32;
+                while count + 1 < thr {
+                    // tags that spread over the bins under the identity hasher
+                    m.insert(K::new(4_000_000 + i), V::new(0), &g);
+                    i += 1;
+                    count += 1;
+                    let n1 = unsafe { m.verif_table_len() };
+                    if n1 != n0 {
+                        // (a bin of 8 or more nodes in a table below 64 bins grows the table instead of
+                        // becoming a tree: only the identity hasher, under which the fresh keys fall
+                        // into different bins, lets us exclude that)
+                        if n0 < 64 && (after.max_list >= 8 || prog.cfg.hmode != HMode::Identity) {
+                            return Ok(());
+                        }
+                        return Err(format!("after the concurrent part the {}-bin table held {} entries; inserting {} more (now {}, threshold {}) changed it to {} bins", n0, fin.len(), i, count, thr, n1));
+                    }
+                }
+                Ok(())
+            }));
+            match r {
+                Ok(Ok(())) => {}
+                Ok(Err(e)) => oracle_fail = Some(("C14", e)),
+                Err(_) => oracle_fail = Some(("C14", "inserting after the concurrent part panicked".into())),
             }
         }
         if opts.post_growth && oracle_fail.is_none() && after.table_len > 0 && after.table_len <= 4096 {
@@ -1025,6 +1082,9 @@ pub enum Mix {
     LongReaders,
     /// many threads (up to 129) with one operation each on one crowded bin, plus one writer
     Crowd,
+    /// the first operations on a map that has no table yet, racing each other (lazy initialisation
+    /// against `reserve`, inserts, lookups, clear, traversals)
+    FirstOps,
 }
 
 fn key_strategy(hot: u16) -> BoxedStrategy<u16> {
@@ -1032,6 +1092,12 @@ fn key_strategy(hot: u16) -> BoxedStrategy<u16> {
     // of the universe (in the crowded-bin shapes these are the keys that are not yet present)
     let h = hot.max(1);
     prop_oneof![5 => 0u16..h.min(3), 3 => h.saturating_sub(2)..h, 2 => 0u16..h].boxed()
+}
+
+/// kinds of full traversal: iter / keys / values, and serialisation (JSON or length-trusting
+/// format, of the map or of a pinned reference)
+pub fn iter_kind() -> BoxedStrategy<u8> {
+    prop_oneof![6 => 0u8..3, 2 => 3u8..7].boxed()
 }
 
 pub fn cop_strategy(mix: Mix, hot: u16) -> BoxedStrategy<COp> {
@@ -1102,7 +1168,7 @@ pub fn cop_strategy(mix: Mix, hot: u16) -> BoxedStrategy<COp> {
             4 => k.clone().prop_map(COp::Get),
             1 => k.clone().prop_map(COp::GetKV),
             1 => k.clone().prop_map(COp::Contains),
-            2 => (0u8..3).prop_map(COp::IterAll),
+            2 => iter_kind().prop_map(COp::IterAll),
             3 => k.clone().prop_map(COp::Remove),
             2 => k.clone().prop_map(COp::Insert),
             2 => (k.clone(), act.clone()).prop_map(|(k, a)| COp::Compute(k, a)),
@@ -1116,7 +1182,7 @@ pub fn cop_strategy(mix: Mix, hot: u16) -> BoxedStrategy<COp> {
                 3 => kk.clone().prop_map(COp::Remove),
                 1 => (kk.clone(), act.clone()).prop_map(|(k, a)| COp::Compute(k, a)),
                 1 => kk.clone().prop_map(COp::Get),
-                3 => (0u8..3).prop_map(COp::IterAll),
+                3 => iter_kind().prop_map(COp::IterAll),
                 1 => (2u8..4, 0u8..3).prop_map(|(m, r)| COp::RetainForce(Pred::KeyMod(m, r))),
                 1 => (2u8..4, 0u8..3).prop_map(|(m, r)| COp::Retain(Pred::KeyMod(m, r))),
                 1 => Just(COp::Len),
@@ -1139,14 +1205,26 @@ pub fn cop_strategy(mix: Mix, hot: u16) -> BoxedStrategy<COp> {
             3 => k.clone().prop_map(COp::Remove),
             1 => (k.clone(), Just(Act::Remove)).prop_map(|(k, a)| COp::Compute(k, a)),
             1 => k.clone().prop_map(COp::Get),
-            1 => (0u8..3).prop_map(COp::IterAll),
+            1 => iter_kind().prop_map(COp::IterAll),
         ]
         .boxed(),
         Mix::IterResize => prop_oneof![
-            5 => (0u8..3).prop_map(COp::IterAll),
+            5 => iter_kind().prop_map(COp::IterAll),
             8 => (0u16..40).prop_map(COp::Insert),
             1 => k.clone().prop_map(COp::Remove),
             1 => (1u16..80).prop_map(COp::Reserve),
+        ]
+        .boxed(),
+        Mix::FirstOps => prop_oneof![
+            6 => prop_oneof![3 => 0u16..4, 2 => 16u16..40].prop_map(COp::Insert),
+            1 => (0u16..4).prop_map(COp::TryInsert),
+            4 => prop_oneof![Just(1u16), Just(2u16), Just(11u16), Just(12u16), Just(13u16), Just(24u16), Just(100u16), 1u16..200].prop_map(COp::Reserve),
+            1 => (0u16..4).prop_map(COp::Get),
+            1 => (0u16..4).prop_map(COp::Remove),
+            1 => ((0u16..4), act.clone()).prop_map(|(k, a)| COp::Compute(k, a)),
+            1 => iter_kind().prop_map(COp::IterAll),
+            1 => Just(COp::Clear),
+            1 => Just(COp::Len),
         ]
         .boxed(),
         Mix::Crowd => prop_oneof![
@@ -1161,7 +1239,7 @@ pub fn cop_strategy(mix: Mix, hot: u16) -> BoxedStrategy<COp> {
             3 => k.clone().prop_map(COp::Remove),
             1 => (k.clone(), act).prop_map(|(k, a)| COp::Compute(k, a)),
             2 => k.clone().prop_map(COp::Get),
-            3 => (0u8..3).prop_map(COp::IterAll),
+            3 => iter_kind().prop_map(COp::IterAll),
             1 => Just(COp::Clear),
             1 => Just(COp::Len),
         ]
@@ -1267,7 +1345,7 @@ fn treemove_prog_strategy(max_threads: usize) -> BoxedStrategy<Prog> {
     let pat = prop_oneof![2 => Just(0u8), 3 => Just(1u8), 2 => Just(2u8), 2 => Just(3u8)];
     let reader_op = |hot: u16| {
         let k = key_strategy(hot);
-        prop_oneof![4 => k.clone().prop_map(COp::Get), 1 => k.clone().prop_map(COp::GetKV), 1 => k.prop_map(COp::Contains), 1 => (0u8..3).prop_map(COp::IterAll)].boxed()
+        prop_oneof![4 => k.clone().prop_map(COp::Get), 1 => k.clone().prop_map(COp::GetKV), 1 => k.prop_map(COp::Contains), 1 => iter_kind().prop_map(COp::IterAll)].boxed()
     };
     (hm, pat, 9u16..13, 0i32..3, prop_oneof![Just(1u32), Just(8u32), Just(120u32)], prop_oneof![Just(GuardMode::PerOp), Just(GuardMode::PerThread), Just(GuardMode::Pin)], any::<u8>())
         .prop_flat_map(move |(hmode, hot_pat, n, delta, batch, gmode, order)| {
@@ -1330,7 +1408,28 @@ fn crowd_prog_strategy() -> BoxedStrategy<Prog> {
     .boxed()
 }
 
+/// an unallocated map (capacity 0, nothing inserted) and 2-4 threads whose very first operations
+/// race; some threads go on to fill the table past its first thresholds
+fn firstops_prog_strategy(max_threads: usize) -> BoxedStrategy<Prog> {
+    let hm = prop_oneof![4 => Just(HMode::Identity), 2 => Just(HMode::Mix), 1 => Just(HMode::SameBin), 1 => Just(HMode::Const0)];
+    let thread = prop_oneof![
+        4 => proptest::collection::vec(cop_strategy(Mix::FirstOps, 0), 1..3),
+        // a thread that fills the default table past its threshold (12) after its first operation
+        1 => (cop_strategy(Mix::FirstOps, 0), 10u16..15).prop_map(|(f, n)| {
+            let mut v = vec![f];
+            v.extend((0..n).map(|i| COp::Insert(16 + i)));
+            v
+        }),
+    ];
+    (hm, prop_oneof![Just(1u32), Just(8u32), Just(120u32)], prop_oneof![Just(GuardMode::PerOp), Just(GuardMode::PerThread), Just(GuardMode::Pin)], proptest::collection::vec(thread, 2..=max_threads.clamp(2, 4)))
+        .prop_map(|(hmode, batch, gmode, threads)| Prog { cfg: CCfg { hmode, capacity: 0, batch, gmode, hot_pat: 0 }, filler: 0, hot_init: vec![], threads })
+        .boxed()
+}
+
 pub fn prog_strategy(mix: Mix, max_threads: usize, max_ops: usize) -> BoxedStrategy<Prog> {
+    if mix == Mix::FirstOps {
+        return firstops_prog_strategy(max_threads);
+    }
     if mix == Mix::Crowd {
         return crowd_prog_strategy();
     }
